@@ -108,3 +108,9 @@ Section Protocol.
         let '(p2, bs) := run p1 os' in (p2, b :: bs)
     end.
 End Protocol.
+Arguments OSet {V} a.
+Arguments OObserve {V}.
+Arguments OJac {V}.
+Arguments BSet {V Cache Col}.
+Arguments BObserve {V Cache Col} a c.
+Arguments BJac {V Cache Col} j.
